@@ -46,7 +46,7 @@ func verifC12_grammar() {
 	userinfos := []string{"", "user@", "example.com@", "example.com:pw@"}
 	ohosts := []string{"example.com", "EXAMPLE.com", "evil.com", "example.com.evil.com", "evilexample.com", "app.example.com", "[::1]", "SK.example", "\u017fk.example", "s\u212a.example", "app.s\u212a.example"}
 	ports := []string{"", ":8080", ":443"}
-	tails := []string{"", "/example.com", "?example.com", "#example.com", "?.example.com", "/?x=.example.com"}
+	tails := []string{"", "/example.com", "?example.com", "#example.com", "?.example.com", "/?x=.example.com", "/@example.com", "?u@app.example.com", "#@example.com:8080"}
 	patternSets := [][]string{nil, {"*.example.com"}, {"example.com"}, {"https://*.example.com"}, {"evil.*"}, {"[bad", "evil.com"}, {"EXAMPLE.com:*"}, {"*.sk.example"}}
 
 	if vParam("small", 0) == 1 {
@@ -57,7 +57,7 @@ func verifC12_grammar() {
 		ohosts = []string{"example.com", "evil.com", "example.com.evil.com", "app.example.com", "[::1]", "\u017fk.example", "app.s\u212a.example"}
 		patternSets = append(patternSets[:4:4], patternSets[5:]...)
 		ports = ports[:2]
-		tails = []string{"", "?.example.com", "/example.com"}
+		tails = []string{"", "?.example.com", "/@example.com", "#@example.com:8080"}
 	}
 	reqHost := reqHosts[vChoose("reqHost", len(reqHosts))]
 	kind := vChoose("originKind", 4) // 0 built from the grammar, 1 absent, 2 "null", 3 a scheme without an authority
